@@ -9,7 +9,7 @@ import FluteModel.PathMap
     path seq  <root> <destform> <tok,tok,...>                  a history: several writers of one builder, calls in any order
 
   <root>      absolute path of the sandbox (plain ASCII, no space); the sandbox layout is fixed (see `initFs`)
-  <destform>  abs | slash | dots | rel | reldot      how `dest` is spelled (and the working directory)
+  <destform>  abs | slash | dots | rel | reldot | dot | dotdot | dotsdot | subup     how `dest` is spelled (and the cwd)
   <ans>       ok:<hex of url.path()> | rwb | rcb | other      what the real `url::Url::parse` answered
   <outcome>   complete | error | interrupted
 
@@ -95,6 +95,11 @@ def destOf (rootS : String) (root : RPath) : String → Option (RPath × Str)
   | "dots" => some ([], strBytes (rootS ++ "/outer/../dest/."))
   | "rel" => some (root, strBytes "dest")
   | "reldot" => some (root ++ [strBytes "outer"], strBytes "../dest")
+  -- dest spelled with nothing but dots (cwd = the dest directory, resp. a child of it)
+  | "dot" => some (root ++ [strBytes "dest"], strBytes ".")
+  | "dotdot" => some (root ++ [strBytes "dest", strBytes "sub"], strBytes "..")
+  | "dotsdot" => some (root ++ [strBytes "dest"], strBytes "./.")
+  | "subup" => some (root ++ [strBytes "dest"], strBytes "sub/..")
   | _ => none
 
 def okRoot (s : String) : Bool :=
